@@ -1807,6 +1807,56 @@ pub fn f18() -> Vec<Case> {
     out
 }
 
+/// F19: late additions after wave 6 of the seeded changes.
+///  * an untyped literal stored through a COMPUTED index keeps the element type;
+///  * a FUNCTION_BLOCK whose body leaves through RETURN still writes its outputs back to the
+///    variables connected with `=>` (value and tag, with reference);
+///  * a call after an FB call with EN := FALSE still runs under the caller's USING directives.
+pub fn f19() -> Vec<Case> {
+    let mut out = Vec::new();
+    let l = |x: i128| lit(int(Ty::Int, x));
+    for t in [Ty::SInt, Ty::Int, Ty::UInt, Ty::LInt, Ty::Real] {
+        let v = if t == Ty::Real { V::L(1.5) } else { int(Ty::DInt, 5) };
+        let p = prog(
+            vec![Decl { name: "a".into(), ty: TyX::Arr(0, 3, t), init: None }, Decl::init("i", int(Ty::Int, 1))],
+            vec![S::Assign(LV::Idx("a".into(), vec![bin(Op::Add, var("i"), l(1))]), ulit(v)), S::Assign(LV::Idx("a".into(), vec![bin(Op::Sub, var("i"), l(1))]), ulit(v))],
+        );
+        out.push(case("F19", format!("untyped-literal:computed-index:{}", t.name()), p, 2, true));
+    }
+    {
+        let fb = FbDef {
+            name: "Lim".into(),
+            inputs: vec![Decl::new("d", Ty::Int)],
+            outputs: vec![Decl::new("total", Ty::Int), Decl::new("hits", Ty::Int)],
+            vars: vec![],
+            body: vec![
+                assign("hits", bin(Op::Add, var("hits"), l(1))),
+                S::If(vec![(bin(Op::Gt, var("d"), l(1)), vec![assign("total", bin(Op::Add, var("total"), var("d"))), S::Return])], None),
+                assign("total", bin(Op::Sub, var("total"), l(1))),
+            ],
+        };
+        for depth in ["if", "loop-in-if"] {
+            let mut f = fb.clone();
+            if depth == "loop-in-if" {
+                f.body[1] = S::If(vec![(bin(Op::Gt, var("d"), l(1)), vec![S::While(lit(V::B(true)), vec![assign("total", bin(Op::Add, var("total"), var("d"))), S::Return])])], None);
+            }
+            let mut p = prog(
+                vec![Decl { name: "fa".into(), ty: TyX::Fb("Lim".into()), init: None }, Decl::new("t", Ty::Int), Decl::new("h", Ty::Int), Decl::new("c", Ty::Int)],
+                vec![assign("c", bin(Op::Add, var("c"), l(1))), S::FbCall("fa".into(), vec![Arg::In("d".into(), var("c")), Arg::Out("total".into(), "t".into()), Arg::Out("hits".into(), "h".into())])],
+            );
+            p.fbs.push(f);
+            out.push(case("F19", format!("fb-return:output-binding:return-inside-{depth}"), p, 4, true));
+        }
+    }
+    out.push(raw(
+        "F19",
+        "en-false:then-call-through-using",
+        "NAMESPACE Lib\nFUNCTION Clamp10 : DINT\nVAR_INPUT v : DINT; END_VAR\n    IF v > 10 THEN Clamp10 := 10; ELSE Clamp10 := v; END_IF;\nEND_FUNCTION\nEND_NAMESPACE\nFUNCTION_BLOCK Gate\nVAR_INPUT EN : BOOL; x : DINT; END_VAR\nVAR_OUTPUT ENO : BOOL; y : DINT; END_VAR\n    y := x;\nEND_FUNCTION_BLOCK\nPROGRAM Main\nUSING Lib;\nVAR g : Gate; r : DINT; k : DINT; enb : BOOL; END_VAR\n    k := k + 1;\n    enb := (k MOD 2) = 0;\n    r := Clamp10(k);\n    g(EN := enb, x := k);\n    r := r + Clamp10(k + 20);\nEND_PROGRAM\n",
+        4,
+    ));
+    out
+}
+
 pub fn corpus(thorough: bool) -> Vec<Case> {
     let mut out = Vec::new();
     out.extend(f2());
@@ -1828,6 +1878,7 @@ pub fn corpus(thorough: bool) -> Vec<Case> {
     out.extend(f3r());
     out.extend(f17());
     out.extend(f18());
+    out.extend(f19());
     out.extend(super::stdlib::cases(thorough));
     out.extend(super::oop::cases(thorough));
     out
